@@ -4,8 +4,8 @@ from .. import gen
 from ..gen import hx
 from ..main import Trace, k_suite, run_trace, parse_mismatch, Violation
 
-LEAN_MODULES = ["Shm.Props.C03"]
-GEN_TABLES = []
+LEAN_MODULES = ["Shm.Props.C03", "Shm.Props.FactsC03"]
+GEN_TABLES = ["EntryFacts.lean", ]
 LEVEL = "proof"
 RULE = ("K03a: EXHAUSTIVE enumeration of all call sequences up to a bounded length over the alphabet {open RO/RW on token A, open RW on B, "
         "close s1..s3, closeAll A, login(s1|s2, USER|SO, right|wrong PIN), login context-specific, logout s1|s2, initToken A right|wrong PIN, "
